@@ -108,6 +108,49 @@ example : LawOpen Witness.ops := ⟨by
   · cases hw
   · rename_i h; simp only [h, if_false]; exact h⟩
 
+/-- **Every active connection waits for what its state calls for.**  Under `LawTable` (handle_idle ends with the
+    regenerated state → event_loop_info table of MHD_connection_update_event_loop_info) every connection a round
+    of either loop leaves active — except those added during the round — is in the wait class of its state; in
+    particular a connection with a reply to send is watched for writability. -/
+theorem round_wait_class {ops : Ops W} {needs : Local W → Bool} (LT : LawTable ops) {d : Daemon W}
+    (h : InvSP needs d) (rdy : Ready) (poll : Bool) :
+    ∀ c ∈ (roundOf ops poll d rdy).conns, c.id ∈ ids d.newc ∨ TableOK c.loc :=
+  round_table LT h rdy poll
+
+/-- the regenerated table puts the states `call_handlers` writes in into the WRITE class, the "unready" and
+    full-request states into PROCESS, the line/header receiving states into READ (fails to `decide` if a case of
+    MHD_connection_update_event_loop_info is given another wait class) -/
+theorem wait_table_sane :
+    stHeadersSending ∈ writeStates ∧ stNormalBodyReady ∈ writeStates ∧ stChunkedBodyReady ∈ writeStates ∧
+    stInit ∈ readStates ∧ stClosed ∉ writeStates ++ processStates ++ readStates ∧
+    (∀ s ∈ writeStates, s ∉ processStates ∧ s ∉ readStates) ∧ writeStates.length = 5 ∧ processStates.length = 3 ∧
+    readStates.length = 4 := by decide
+
+/-- non-vacuity of `round_wait_class`: a step whose idle sets the wait class from the table is lawful -/
+def fixEli (l : Local Unit) : Local Unit :=
+  if l.st ∈ writeStates then { l with eli := .write }
+  else if l.st ∈ processStates then { l with eli := .process }
+  else if l.st ∈ readStates then { l with eli := .read } else l
+def tblOps : Ops Unit := { read := fun _ _ _ l => l, write := fun _ _ l => l, close := fun _ _ l => l,
+                           idle := fun _ _ wh l => (fixEli l, wh) }
+theorem wait_classes_disjoint : ∀ s, (s ∈ writeStates → s ∉ processStates ∧ s ∉ readStates) ∧ (s ∈ processStates → s ∉ readStates) := by
+  intro s
+  simp only [writeStates, processStates, readStates, List.mem_cons, List.not_mem_nil, or_false]
+  omega
+example : LawTable tblOps := ⟨by
+  intro id k wh l _
+  show TableOK (fixEli l)
+  unfold TableOK fixEli
+  have := wait_classes_disjoint l.st
+  by_cases h1 : l.st ∈ writeStates
+  · simp [h1, (this.1 h1).1, (this.1 h1).2]
+  · by_cases h2 : l.st ∈ processStates
+    · simp [h1, h2, this.2 h2]
+    · by_cases h3 : l.st ∈ readStates <;> simp [h1, h2, h3]⟩
+
+/-- the eready drop test of MHD_epoll is the exact one -/
+theorem code_eready_drop_exact : ereadyDropExactRead = true := by decide
+
 /-! ## every history -/
 
 /-- The invariant holds in every state reachable from an empty daemon by any sequence of
